@@ -354,3 +354,224 @@ package simple
 //@ func WeightedUndirectedGraph.NodeWithID props: C12
 //@ requires wugInv(g)
 //@ ensures new == !has(g.nodes, id)
+
+// ---- dense-matrix graphs --------------------------------------------------------
+//
+// dmInv is the representation invariant of DirectedMatrix: the adjacency
+// matrix is a well-formed square mat.Dense with at least one row, and the node
+// slice, if present (NewDirectedMatrixFrom), has one non-nil entry per row
+// whose ID is its index. The node set is [0, Rows); there is an edge u->v
+// exactly when u and v are distinct nodes and the (u,v) cell is not the absent
+// value (NaN-aware comparison). The query contracts state that has, Node,
+// HasEdgeFromTo, HasEdgeBetween, Edge, WeightedEdge and Weight all answer from
+// this one model (they agree with each other by construction).
+
+//@ spec dmInv(g *DirectedMatrix) bool = g != nil && mat.wfDense(g.mat) && g.mat.mat.Rows > 0 && g.mat.mat.Rows == g.mat.mat.Cols &&
+//@   (g.nodes == nil || (len(g.nodes) == g.mat.mat.Rows && forall(i, 0, len(g.nodes), g.nodes[i] != nil && g.nodes[i].ID() == i)))
+//@ spec dmHas(g *DirectedMatrix, id int) bool = 0 <= id && id < g.mat.mat.Rows
+//@ spec dmCell(g *DirectedMatrix, u int, v int) float64 = g.mat.mat.Data[u*g.mat.mat.Stride+v]
+//@ spec dmEdge(g *DirectedMatrix, u int, v int) bool = dmHas(g, u) && dmHas(g, v) && u != v && !wsame(dmCell(g, u, v), g.absent)
+
+//@ func DirectedMatrix.has props: C12
+//@ requires dmInv(g)
+//@ ensures result == dmHas(g, id)
+
+//@ func DirectedMatrix.Node props: C12
+//@ requires dmInv(g)
+//@ ensures (result != nil) == dmHas(g, id)
+//@ ensures dmHas(g, id) ==> result.ID() == id
+//@ ensures dmHas(g, id) && g.nodes != nil ==> result == g.nodes[id]
+
+//@ func DirectedMatrix.HasEdgeFromTo props: C12
+//@ requires dmInv(g)
+//@ floats: ieee
+//@ ensures result == dmEdge(g, uid, vid)
+
+//@ func DirectedMatrix.HasEdgeBetween props: C12
+//@ requires dmInv(g)
+//@ floats: ieee
+//@ ensures result == (dmEdge(g, xid, yid) || dmEdge(g, yid, xid))
+
+//@ func DirectedMatrix.Weight props: C12
+//@ requires dmInv(g)
+//@ floats: ieee
+//@ ensures ok == (xid == yid || dmEdge(g, xid, yid))
+//@ ensures xid == yid ==> same(w, g.self)
+//@ ensures !ok ==> same(w, g.absent)
+//@ ensures (xid != yid && ok) ==> same(w, dmCell(g, xid, yid))
+
+//@ func DirectedMatrix.WeightedEdge props: C12
+//@ requires dmInv(g)
+//@ floats: ieee
+//@ ensures (result != nil) == dmEdge(g, uid, vid)
+//@ ensures result != nil ==> result.From().ID() == uid && result.To().ID() == vid && same(result.Weight(), dmCell(g, uid, vid))
+
+//@ func DirectedMatrix.Edge props: C12
+//@ requires dmInv(g)
+//@ floats: ieee
+//@ ensures (result != nil) == dmEdge(g, uid, vid)
+//@ ensures result != nil ==> result.From().ID() == uid && result.To().ID() == vid
+
+// (was a finding: repaired by a fix: commit, block enabled) DirectedMatrix.RemoveEdge (and UndirectedMatrix.RemoveEdge below).
+// "If the edge does not exist it is a no-op", but RemoveEdge(i, i) with i in
+// the matrix stores absent into the diagonal cell (i, i), which holds the self
+// weight and is visible through Matrix(). With the documented frame below the
+// verifier answers sat for call.frame#3[g.mat.Set writes m.mat.Data[i*m.mat.Stride+j]]
+// (fid == tid); without the conjunct `fid != tid` the block verifies (43 obls).
+
+//@ func DirectedMatrix.RemoveEdge props: C12
+//@ requires dmInv(g)
+//@ floats: ieee
+//@ writes g.mat.mat.Data[fid*g.mat.mat.Stride+tid] if dmHas(g, fid) && dmHas(g, tid) && fid != tid
+//@ ensures dmInv(g)
+//@ ensures dmHas(g, fid) && dmHas(g, tid) && fid != tid ==> same(dmCell(g, fid, tid), g.absent)
+//@ ensures !dmEdge(g, fid, tid)
+
+// (was a finding: repaired by a fix: commit, block enabled) DirectedMatrix.setWeightedEdge (SetEdge, SetWeightedEdge; the same
+// code in UndirectedMatrix). "If the ends of the edge are not in g or the edge
+// is a self loop, SetWeightedEdge panics": for a graph built by
+// NewDirectedMatrixFrom (g.nodes != nil) the stores g.nodes[fid] = from and
+// g.nodes[tid] = to come before the range check done by mat.Set, so (a) an
+// endpoint outside the matrix ends in a Go runtime index error instead of the
+// package's panic (idx#1[g.nodes[fid]], idx#2[g.nodes[tid]] sat) and (b) with
+// fid inside and tid outside the matrix the node stored for fid has already
+// been replaced when the panic occurs: the graph is changed by a failed call
+// (panic.order#12[panic(g.mat.Set) before any write] sat). With the additional
+// precondition g.nodes == nil (graphs built by NewDirectedMatrix) the three
+// blocks verify (31 / 18 / 17 obls).
+
+//@ func DirectedMatrix.setWeightedEdge props: C12
+//@ let fid = e.From().ID()
+//@ let tid = e.To().ID()
+//@ requires dmInv(g) && e != nil && e.From() != nil && e.To() != nil
+//@ valid fid != tid && dmHas(g, fid) && dmHas(g, tid)
+//@ panics iff !valid, before-writes
+//@ option delegate-panics
+//@ writes g.mat.mat.Data[fid*g.mat.mat.Stride+tid] ; g.nodes[fid] if g.nodes != nil ; g.nodes[tid] if g.nodes != nil
+//@ ensures dmInv(g)
+//@ ensures same(dmCell(g, fid, tid), weight)
+//@ ensures g.nodes != nil ==> g.nodes[fid] == e.From() && g.nodes[tid] == e.To()
+// SetWeightedEdge: the same block with `weight` replaced by e.Weight(); SetEdge: by float64(1).
+// (setWeightedEdge needs its own block: `option delegate-panics` is not
+// honoured inside an inlined callee, call.pre#12[valid(g.mat.Set)]~inl is sat otherwise.)
+
+// NewDirectedMatrix establishes dmInv; Nodes returns an iterator over exactly the node set.
+// (NewDirectedMatrixFrom, NewUndirectedMatrixFrom are not under contract: sort.Slice.)
+
+
+//@ func NewDirectedMatrix props: C12
+//@ requires n > 0
+//@ floats: ieee
+//@ ensures dmInv(result) && fresh(result) && result.mat.mat.Rows == n && result.mat.mat.Stride == n && result.nodes == nil
+//@ ensures same(result.self, self) && same(result.absent, absent)
+//@ ensures forall(r, 0, n, forall(c, 0, n, r != c ==> wsame(result.mat.mat.Data[r*n+c], init)))
+//@ ensures forall(r, 0, n, same(result.mat.mat.Data[r*n+r], self))
+//@ loop 1: invariant forall(k, 0, it, same(matrix[k], init))
+//@ loop 2: invariant forall(r, 0, n, forall(c, 0, n, r != c ==> wsame(matrix[r*n+c], init)))
+//@ invariant forall(r, 0, n, r < it ==> same(matrix[r*n+r], self))
+
+//@ func DirectedMatrix.Nodes props: C12
+//@ requires dmInv(g)
+//@ ensures g.nodes != nil ==> hasType(result, *iterator.OrderedNodes) && iterator.onInv(unbox(result, *iterator.OrderedNodes)) && unbox(result, *iterator.OrderedNodes).idx == -1 &&
+//@     len(unbox(result, *iterator.OrderedNodes).nodes) == g.mat.mat.Rows && fresh(unbox(result, *iterator.OrderedNodes).nodes) &&
+//@     forall(i, 0, g.mat.mat.Rows, unbox(result, *iterator.OrderedNodes).nodes[i] == g.nodes[i])
+//@ ensures g.nodes == nil ==> hasType(result, *iterator.ImplicitNodes) && iterator.inInv(unbox(result, *iterator.ImplicitNodes)) && unbox(result, *iterator.ImplicitNodes).beg == 0 &&
+//@     unbox(result, *iterator.ImplicitNodes).end == g.mat.mat.Rows && unbox(result, *iterator.ImplicitNodes).curr == -1
+
+// umInv is the representation invariant of UndirectedMatrix: the adjacency
+// matrix is a non-empty mat.SymDense (upper triangle stored; SymDense has no
+// contracts of its own, its accessors are inlined) and the node slice, if
+// present, has one non-nil entry per row whose ID is its index. There is an
+// edge between u and v exactly when they are distinct nodes and the
+// (min(u,v), max(u,v)) cell is not the absent value.
+
+//@ spec umInv(g *UndirectedMatrix) bool = g != nil && g.mat != nil && g.mat.mat.N > 0 && g.mat.mat.Stride >= g.mat.mat.N &&
+//@   len(g.mat.mat.Data) >= (g.mat.mat.N-1)*g.mat.mat.Stride+g.mat.mat.N &&
+//@   (g.nodes == nil || (len(g.nodes) == g.mat.mat.N && forall(i, 0, len(g.nodes), g.nodes[i] != nil && g.nodes[i].ID() == i)))
+//@ spec umHas(g *UndirectedMatrix, id int) bool = 0 <= id && id < g.mat.mat.N
+//@ spec umCell(g *UndirectedMatrix, u int, v int) float64 = g.mat.mat.Data[min(u, v)*g.mat.mat.Stride+max(u, v)]
+//@ spec umEdge(g *UndirectedMatrix, u int, v int) bool = umHas(g, u) && umHas(g, v) && u != v && !wsame(umCell(g, u, v), g.absent)
+
+// NewUndirectedMatrix establishes umInv (n == 0 and n < 0 panic in
+// mat.NewSymDense, which the documentation does not mention: requires n > 0).
+// Every off-diagonal cell of the n x n backing array holds init (up to the sign
+// of zero: a -0 init leaves the +0 of make, hence wsame), every diagonal cell
+// holds self.
+
+//@ func NewUndirectedMatrix props: C12
+//@ requires n > 0
+//@ floats: ieee
+//@ ensures umInv(result) && fresh(result) && result.mat.mat.N == n && result.mat.mat.Stride == n && result.nodes == nil
+//@ ensures same(result.self, self) && same(result.absent, absent)
+//@ ensures forall(r, 0, n, forall(c, 0, n, r != c ==> wsame(result.mat.mat.Data[r*n+c], init)))
+//@ ensures forall(r, 0, n, same(result.mat.mat.Data[r*n+r], self))
+//@ loop 1: invariant forall(k, 0, it, same(matrix[k], init))
+//@ loop 2: invariant forall(r, 0, n, forall(c, 0, n, r != c ==> wsame(matrix[r*n+c], init)))
+//@ invariant forall(r, 0, n, r < it ==> same(matrix[r*n+r], self))
+
+//@ func UndirectedMatrix.has props: C12
+//@ requires umInv(g)
+//@ ensures result == umHas(g, id)
+
+//@ func UndirectedMatrix.Node props: C12
+//@ requires umInv(g)
+//@ ensures (result != nil) == umHas(g, id)
+//@ ensures umHas(g, id) ==> result.ID() == id
+//@ ensures umHas(g, id) && g.nodes != nil ==> result == g.nodes[id]
+
+//@ func UndirectedMatrix.HasEdgeBetween props: C12
+//@ requires umInv(g)
+//@ floats: ieee
+//@ ensures result == umEdge(g, uid, vid)
+//@ ensures result == umEdge(g, vid, uid)
+
+//@ func UndirectedMatrix.Weight props: C12
+//@ requires umInv(g)
+//@ floats: ieee
+//@ ensures ok == (xid == yid || umEdge(g, xid, yid))
+//@ ensures xid == yid ==> same(w, g.self)
+//@ ensures !ok ==> same(w, g.absent)
+//@ ensures (xid != yid && ok) ==> same(w, umCell(g, xid, yid))
+
+//@ func UndirectedMatrix.WeightedEdgeBetween UndirectedMatrix.WeightedEdge props: C12
+//@ requires umInv(g)
+//@ floats: ieee
+//@ ensures (result != nil) == umEdge(g, uid, vid)
+//@ ensures result != nil ==> result.From().ID() == uid && result.To().ID() == vid && same(result.Weight(), umCell(g, uid, vid))
+
+//@ func UndirectedMatrix.EdgeBetween UndirectedMatrix.Edge props: C12
+//@ requires umInv(g)
+//@ floats: ieee
+//@ ensures (result != nil) == umEdge(g, uid, vid)
+//@ ensures result != nil ==> result.From().ID() == uid && result.To().ID() == vid
+
+// (was a finding: repaired by a fix: commit, block enabled) UndirectedMatrix.RemoveEdge, as for DirectedMatrix: with the
+// documented frame frame#1[s.mat.Data[i*s.mat.Stride+j]]~inl is sat for
+// fid == tid; without `fid != tid` the block verifies (39 obls). The condition
+// is written out because a spec macro in a writes clause is not resolved while
+// a store of an inlined callee of another package (SymDense.set) is checked
+// ("OUTSIDE-SUBSET: spec: call umHas(g, fid)").
+
+//@ func UndirectedMatrix.RemoveEdge props: C12
+//@ requires umInv(g)
+//@ floats: ieee
+//@ writes g.mat.mat.Data[min(fid, tid)*g.mat.mat.Stride+max(fid, tid)] if 0 <= fid && fid < g.mat.mat.N && 0 <= tid && tid < g.mat.mat.N && fid != tid
+//@ ensures umInv(g)
+//@ ensures umHas(g, fid) && umHas(g, tid) && fid != tid ==> same(umCell(g, fid, tid), g.absent)
+//@ ensures !umEdge(g, fid, tid) && !umEdge(g, tid, fid)
+
+// (was a finding: repaired by a fix: commit, block enabled) UndirectedMatrix.setWeightedEdge (SetEdge, SetWeightedEdge), as for
+// DirectedMatrix: idx#1[g.nodes[fid]], idx#2[g.nodes[tid]],
+// panic.order#0[panic(ErrRowAccess) before any write],
+// panic.order#0[panic(ErrColAccess) before any write] are sat.
+
+//@ func UndirectedMatrix.setWeightedEdge props: C12
+//@ let fid = e.From().ID()
+//@ let tid = e.To().ID()
+//@ requires umInv(g) && e != nil && e.From() != nil && e.To() != nil
+//@ valid fid != tid && umHas(g, fid) && umHas(g, tid)
+//@ panics iff !valid, before-writes
+//@ writes g.mat.mat.Data[min(fid, tid)*g.mat.mat.Stride+max(fid, tid)] ; g.nodes[fid] if g.nodes != nil ; g.nodes[tid] if g.nodes != nil
+//@ ensures umInv(g)
+//@ ensures same(umCell(g, fid, tid), weight)
+//@ ensures g.nodes != nil ==> g.nodes[fid] == e.From() && g.nodes[tid] == e.To()
